@@ -247,6 +247,13 @@ class Interp:
             self.depth -= 1
 
     def call(self, f, args, kwargs, node=None):
+        if isinstance(f, BuiltinType) and f.pytype in (int, float) and \
+                len(args) == 1 and is_unk(args[0]) and \
+                getattr(args[0], 'tag', '') == 'text':
+            # conversion of unknown text: succeeds or raises ValueError
+            if self.oracle.choose(2) == 1:
+                raise Raised('ValueError', 'invalid literal', node)
+            return Unk('number')
         if isinstance(f, AbsObj):
             return f.call_(args, kwargs, self)
         if is_unk(f):
@@ -335,6 +342,13 @@ class Interp:
         if st.exc is None:
             raise Raised('reraise', None, st)
         e = st.exc
+        if not isinstance(e, ast.Call):
+            try:
+                v = self.eval(e, env)
+            except Raised:
+                v = None
+            if isinstance(v, ExcValue):
+                raise v.raised
         name = dotted(e.func) if isinstance(e, ast.Call) else dotted(e)
         val = None
         if isinstance(e, ast.Call):
@@ -431,7 +445,10 @@ class Interp:
             return v.iter_(self)
         if isinstance(v, dict):
             return list(v.keys())
-        return list(v)
+        try:
+            return list(v)
+        except TypeError as ex:
+            raise Raised('TypeError', str(ex))
 
     def st_For(self, st, env):
         it = self.iterate(self.eval(st.iter, env))
@@ -450,11 +467,14 @@ class Interp:
         if not broke:
             self.exec_block(st.orelse, env)
 
+    MAX_FOREVER = 64
+
     def st_While(self, st, env):
         n = 0
+        forever = isinstance(st.test, ast.Constant) and st.test.value is True
         while True:
             n += 1
-            if n > self.MAX_LOOP:
+            if n > (self.MAX_FOREVER if forever else self.MAX_LOOP):
                 raise PathEnd('loop-bound', 'while loop bound reached', st)
             if not self.truth(self.eval(st.test, env), st):
                 self.exec_block(st.orelse, env)
@@ -524,6 +544,9 @@ class Interp:
 
     def getattr(self, obj, name, node=None):
         if is_unk(obj):
+            if obj.tag == 'text' and name in ('strip', 'lower', 'upper',
+                                              'lstrip', 'rstrip'):
+                return (lambda *a: Unk('text'))
             return Unk(f'{obj.tag}.{name}')
         if isinstance(obj, AbsObj):
             return obj.getattr_(name, self)
@@ -680,6 +703,9 @@ class Interp:
         if isinstance(op, (ast.Is, ast.IsNot)):
             if r is None or l is None:
                 if is_unk(l) or is_unk(r):
+                    return Unk('is')
+                if getattr(l, 'maybe_none', False) or \
+                        getattr(r, 'maybe_none', False):
                     return Unk('is')
                 res = l is r
             elif is_unk(l) or is_unk(r):
@@ -977,6 +1003,38 @@ BUILTINS = {
     'RuntimeError': 'RuntimeError', 'AssertionError': 'AssertionError',
     'NotImplementedError': 'NotImplementedError',
 }
+
+
+class BuiltinType(AbsObj):
+    """int / str / list / tuple ... usable both as a converter and as the
+    second argument of isinstance."""
+    is_callable = True
+
+    def __init__(self, pytype, conv):
+        self.pytype = pytype
+        self.conv = conv
+
+    def call_(self, args, kwargs, interp):
+        return self.conv(*args, **kwargs)
+
+    def instancecheck_(self, x):
+        if is_unk(x):
+            return Unk('isinstance')
+        if isinstance(x, AbsObj):
+            return False
+        if self.pytype is int and isinstance(x, bool):
+            return True
+        return isinstance(x, self.pytype)
+
+    def eq_(self, other):
+        return isinstance(other, BuiltinType) and \
+            other.pytype is self.pytype
+
+
+for _n, _t in (('int', int), ('str', str), ('float', float),
+               ('list', list), ('tuple', tuple), ('dict', dict),
+               ('bool', bool)):
+    BUILTINS[_n] = BuiltinType(_t, BUILTINS[_n])
 
 
 class Sentinel(AbsObj):
